@@ -70,6 +70,9 @@ OPNMIDIplay::OPNMIDIplay(unsigned long sampleRate) :
     , m_audioTickCounter(0)
 #endif
 {
+#ifdef OPNMIDI_VERIF
+    m_verifFramesOut = 0;
+#endif
     m_midiDevices.clear();
 
     m_setup.emulator = opn2_getLowestEmulator();
